@@ -553,7 +553,9 @@ def _execute(p, s, res):
             d.append("scheduled_due")
         if cfg["split"]:
             # arrivals may end inside a key: bytes are deliverable when a whole key is there
-            if any(M.pos < b <= M.arrived_total for b in M.boundaries):
+            import bisect
+            i = bisect.bisect_right(M.bound_list, M.pos)
+            if i < len(M.bound_list) and M.bound_list[i] <= M.arrived_total:
                 d.append("whole_key_arrived")
         elif len(s.tty.inq) > 0:
             d.append("tty_bytes")
@@ -916,6 +918,12 @@ def _execute(p, s, res):
                 elif op == "cursor_query":
                     if M.tty_read_total not in M.boundaries:
                         world.log.add("cursor_query_skipped_mid_key")
+                        continue
+                    if len(s.tty.inq) > 200:
+                        # get_cursor_position re-runs a backtracking regex over everything read so far after
+                        # every character: kilobytes of type-ahead cost minutes of CPU (a performance matter,
+                        # not a property; noted in DESIGN.md 12.6) -- not exercised here
+                        world.log.add("cursor_query_skipped_large_typeahead")
                         continue
                     do_cursor_query(si)
                 if res["violation"]:
